@@ -10,6 +10,8 @@
 (*   got.series[i]        what the handler forwarded for ingestion:        *)
 (*                        labels [[name,value]..], samples, hists,         *)
 (*                        exemplars [{labels, v, t}..]                     *)
+(*   got.written          the three ...-Written response headers (-1 =      *)
+(*                        absent); compared with the model only (DRIFT)    *)
 (* Timestamps are relative, values doubled (integers); a negative          *)
 (* reference n stands for uint32(n).                                       *)
 (***************************************************************************)
@@ -19,7 +21,7 @@ Judge(e) == C26Violations(e.req, e.got)
 
 (* model conformance (never a verdict) *)
 Drift(e) == LET p == TranslateAlgo(e.req) IN
-            ~(p.kind = e.got.kind /\ p.status = e.got.status /\ p.series = e.got.series)
+            ~(p.kind = e.got.kind /\ p.status = e.got.status /\ p.series = e.got.series /\ p.written = e.got.written)
 
 VARIABLE l
 TraceInit == l = 1
